@@ -92,3 +92,32 @@ func Gate(name string, kv ...any) {
 		}
 	}
 }
+
+var (
+	counterMu sync.Mutex
+	counters  = map[string]int64{}
+)
+
+// Count increments the named work counter (used to bound the work of graph algorithms).
+func Count(name string) {
+	counterMu.Lock()
+	counters[name]++
+	counterMu.Unlock()
+}
+
+// Counters returns a copy of the work counters; ResetCounters clears them.
+func Counters() map[string]int64 {
+	counterMu.Lock()
+	defer counterMu.Unlock()
+	out := make(map[string]int64, len(counters))
+	for k, v := range counters {
+		out[k] = v
+	}
+	return out
+}
+
+func ResetCounters() {
+	counterMu.Lock()
+	counters = map[string]int64{}
+	counterMu.Unlock()
+}
